@@ -9,6 +9,7 @@ mod m_c14;
 mod m_c04pkt;
 mod pkt;
 mod m_c20;
+mod m_faults;
 mod m_run;
 mod m_state;
 mod m_tsops;
@@ -70,6 +71,7 @@ fn main() {
         "c04pkt" => m_c04pkt::run(&args, &mut out),
         "c11" => m_c11::run(&args, &mut out),
         "run" => m_run::run(&args, &mut out),
+        "faults" => m_faults::run(&args, &mut out),
         "state" => m_state::run(&args, &mut out),
         "tsops" => m_tsops::run(&args, &mut out),
         "c20" => m_c20::run(&args, &mut out),
